@@ -86,6 +86,10 @@ type ChanV struct {
 	closed bool
 	elem   types.Type
 	items  []*chanItem
+	// happens-before bookkeeping (race.go)
+	sends   int
+	recvVCs []vclock
+	closeVC vclock
 }
 
 // HostObj wraps host-side objects used by intrinsics (scanner, readers, buffers, waitgroups).
